@@ -27,6 +27,7 @@ def run(ctx, rep):
     m1(ctx, rep, T)
     m2(ctx, rep, T)
     m3(ctx, rep)
+    m5(ctx, rep)
     m4(ctx, rep)
 
 
@@ -233,6 +234,28 @@ def m3(ctx, rep):
         # the key is the crate_name of the very value that is merged under it
         ok = any(vt.is_field_of(keyv, a['value'], 'crate_name') for a in folds)
     rep.check(ok, 'M3', 'collector:key', 'results keyed by parsed_data.crate_name', f"the collector files results under `{shown[:60]}`, not under the crate name of the result being merged", {'file': pp['file'], 'line': pp['line']})
+
+
+def m5(ctx, rep):
+    """M5: the crate → registered-type-names table consulted by used_imports lists *every* crate: the re-export fallback
+    searches all crates, so a crate left out of the table can never be found as the definer of a re-exported type."""
+    f = ctx.fnx('all_types', file='cli/src/parse.rs')
+    site = {'file': f['file'], 'line': f['line']}
+    mp = f['params'][0]['name']
+    chains = []
+    for v in [f.get('tail')] + [l.get('over') for l in f['loops'] if l.get('kind') == 'for'] + [c.get('recv') for c in f['calls'] if c.get('f') in ('fold', 'collect', 'for_each', 'extend')]:
+        v = vt.unvar(v)
+        names = []
+        while isinstance(v, dict) and v.get('k') == 'call' and v.get('recv') is not None:
+            names.append(v.get('f'))
+            v = vt.unvar(v['recv'])
+        if isinstance(v, dict) and v.get('k') == 'atom' and v.get('root') == mp and not v.get('path') and names:
+            chains.append(names)
+    if not chains:
+        raise core.Incomplete('all_types: iteration over the crate map not found')
+    bad = sorted({n for ch in chains for n in ch if n in ('filter', 'filter_map', 'take', 'skip', 'take_while', 'skip_while', 'step_by', 'find', 'nth')})
+    conds = [fr for c in f['calls'] if c.get('f') in ('insert', 'extend', 'entry') for fr in c['guard'] if fr.get('k') == 'if']
+    rep.check(not bad and not conds, 'M5', 'all_types:every-crate', 'every crate of the run is tabulated', f"all_types tabulates only some crates (adaptors {bad}{', conditional insertion' if conds else ''}): used_imports looks a type up in the crate an import names *and*, for re-exports, in all crates — a defining crate missing from the table makes its types un-importable and the generated file references undefined names", site)
 
 
 def m4(ctx, rep):
